@@ -1206,8 +1206,14 @@ Token *preprocess(Token *tok) {
   tok = preprocess2(tok);
   if (cond_incl)
     error_tok(cond_incl->tok, "unterminated conditional directive");
-  convert_pp_tokens(tok);
-  join_adjacent_string_literals(tok);
+
+  // Converting preprocessing tokens and concatenating adjacent string
+  // literals (translation phases 6 and 7) belong to the compiler
+  // proper. -E prints the preprocessing tokens themselves.
+  if (!opt_E) {
+    convert_pp_tokens(tok);
+    join_adjacent_string_literals(tok);
+  }
 
   for (Token *t = tok; t; t = t->next)
     t->line_no += t->line_delta;
